@@ -49,7 +49,8 @@ Fixpoint sevents (h : list (lockc * mode)) (acts : list (tact op)) : list string
       | TSend c => let '(l, f) := sevents h r in ((held_text h ++ ">send:" ++ chan_name c) :: l, f)
       | TCloseCh c => let '(l, f) := sevents h r in ((held_text h ++ ">close:" ++ chan_name c) :: l, f)
       | TWake c => let '(l, f) := sevents h r in ((held_text h ++ ">close:" ++ chan_name c) :: l, f)
-      | TSendIfOpen _ c => let '(l, f) := sevents h r in ((held_text h ++ ">send:" ++ chan_name c) :: l, f)
+      | TSendIfOpen _ c => let '(l, f) := sevents h r in ((held_text h ++ ">trysend:" ++ chan_name c) :: l, f)
+      | TRecv c | TExitIfClosed c => let '(l, f) := sevents h r in ((held_text h ++ ">recv:" ++ chan_name c) :: l, f)
       | TSpawn o => let '(l, f) := sevents h r in (("go:" ++ op_name o) :: l, f)
       | TRd x =>
           let '(l, f) := sevents h r in
